@@ -44,7 +44,7 @@ TYPES = ["promotion", "promotion", "pasha", "pasha", "cost_promotion", "rush_pro
 
 
 def gen_cases(rng, tier):
-    n = 80 if tier == "quick" else 1500
+    n = 80 if tier == "quick" else 800
     for _ in range(n):
         typ = rng.choice(TYPES)
         c = gen_ctor(rng, typ)
